@@ -220,6 +220,10 @@ def gen_case(rng):
 
 
 CORPUS_EXTRA = [
+    # the same #pragma once header forced twice (-include h.h -include h.h) is read once
+    [[[["src", "a.c"], [["Code"]]],
+      [["src", "h.h"], [["Once"], ["If", ["Defd", "SEEN"]], ["Code"], ["Endif"], ["Def", "SEEN", "E"]]]],
+     [["src", "a.c"], [], [], [["h.h"], ["h.h"]]]],
     # an unguarded header that includes itself: the implementation hits the recursion limit, the model its include-depth fuel
     [[[["src", "a.c"], [["Inc", ["Q", ["h.h"]]], ["Code"]]], [["src", "h.h"], [["Code"], ["Inc", ["Q", ["h.h"]]]]]],
      [["src", "a.c"], [], [], []]],
